@@ -731,6 +731,12 @@ impl<'a> Gen<'a> {
             }
         }
         if self.k.special_defs {
+            // FNW(J) = 7 + J: never 0 for the arguments used, so a vanished definition is visible
+            self.push_line(vec![Stmt::Def {
+                name: "FNW".into(),
+                params: vec!["J".into()],
+                body: Expr::Bin(BinOp::Add, Box::new(Expr::Num(7.0)), Box::new(Expr::Var("J".into()))),
+            }]);
             self.push_line(vec![Stmt::Def {
                 name: "FNK".into(),
                 params: vec!["J".into()],
